@@ -102,6 +102,8 @@ def main(argv=None):
     tasks = []
     for s in subs:
         ns = s.nshards(args.tier)
+        if s.n(args.tier) <= 0:
+            continue  # this sub-check does not run in this tier (e.g. coverage-guided campaigns in quick)
         for shard in range(ns):
             tasks.append((prop, s.name, args.tier, seed, shard, ns, tuple(known_keys), deadline))
     # longest first is unknowable; interleave so shards of one sub-check spread out
